@@ -1,12 +1,13 @@
 (* Executable model of the notifier coordinator's incident machine.
-   Anchors: core/internal/notifier/coordinator.go
+   Anchors: core/internal/notifier/coordinator.go (tree after commit aea5b6c, the fix for finding F3)
      consumerGroup {ID, Start, LastNotify}          :58-63
      responseLoop (NOTFOUND is dropped)             :393-413
-     checkAndSendResponseToModules                  :415-462
-       open incident   (Start zero and Status > OK: fresh ID, Start = now, remembered notify times forgotten)
-       per module      allowlist / denylist / AcceptConsumerGroup, then notifyModule
-       close incident  (Status = OK: ID and Start cleared)
-     notifyModule (close, threshold, send-once, send-interval)   :537-571
+     checkAndSendResponseToModules                  :415-466
+       open incident   :430-441  Start zero and Status > OK: fresh ID, Start = now, remembered notify times forgotten
+       per module      :443-459  allowlist / denylist / AcceptConsumerGroup, then notifyModule (called synchronously)
+       close incident  :461-465  Status = OK: ID and Start cleared
+     notifyModule                                   :541-575
+       close branch :552-557, threshold :559-562, send-once :564-567, send-interval (strict >) :569-574
 
    Conventions.  Status is the numeric protocol.StatusConstant (0 NOTFOUND, 1 OK, 2 WARN, 3 ERR, ...).
    Time is Unix nanoseconds (int64 range; what the probe feeds to VerifSetClock); the zero time.Time is [None].
